@@ -27,6 +27,10 @@
 (*          "use" records that deviation arg was exercised                  *)
 (*          "act" arg = tree rewrite without a token                        *)
 (*          code = what is appended to the tree when the item matches       *)
+(* Runs   : one TLC run serves several generator runs <<id, start            *)
+(*          nonterminal, MaxToks, MaxDefs>> (whole documents and the         *)
+(*          sub-grammars variable definitions / field definition / value /  *)
+(*          selection, which the driver wraps into a document).             *)
 (* Tree   : sequence of <<k, s, cp>> (kind, name/number text, code points   *)
 (*          of a string value), pre-order, with bracket entries.            *)
 (*                                                                         *)
@@ -559,6 +563,9 @@ FoldAgrees == LET r == Parse(toks, run[2], {}) IN Complete = (toks # <<>> /\ r.o
 NeedSound == Complete => Need(stack, 1) = 0
 \* the ideal grammar never exercises a deviation
 NoDevUsed == Parse(toks, run[2], {}).used = {}
+\* today's grammar differs from the GraphQL grammar only where a named deviation is recorded as exercised
+DevsAccounted == LET i == Parse(toks, run[2], {}) d == Parse(toks, run[2], AllDevs)
+                 IN d.used = {} => (d.ok = i.ok /\ d.ast = i.ast)
 \* every definition starts with a "def" entry: the tree of a complete document splits into its definitions
 DefsSplit == Complete /\ run[2] \in {"Doc", "SDoc"} => Len(Defs(ast)) >= 1 /\ ast[1][1] = "def"
 
